@@ -445,6 +445,27 @@ func ScriptBoundary(emit func(*Program)) {
 	ends := [][]byte{{}, {0x6a}, {0x6a, 0x01}, {0x6a, 0x6c}}
 	firsts := [][]byte{{0x51, 0x6b}, {0x51, 0x52, 0x6b}, {0x51, 0x6b, 0x52}, {0x51, 0x76, 0x6b}, {0x51}, {0x00, 0x6b, 0x51}, {0x51, 0x6b, 0x52, 0x6b}}
 	seconds := [][]byte{{0x6c}, {}, {0x51}, {0x6c, 0x6c}, {0x74}, {0x6c, 0x51}, {0x51, 0x6b, 0x6c}, {0x6a}, {0x6a, 0x6c}, {0x6b}}
+	// what counts as "top level" for OP_RETURN: OP_VERIF / OP_VERNOTIF (skipped after Genesis, an error when
+	// executed or before Genesis) open nothing; whatever follows a top-level OP_RETURN is not decoded
+	for _, lock := range [][]byte{
+		{0x00, 0x63, 0x65, 0x68, 0x51, 0x6a, 0x4c}, {0x00, 0x63, 0x66, 0x68, 0x51, 0x6a, 0x02}, {0x00, 0x63, 0x63, 0x68, 0x51, 0x6a, 0x4c},
+		{0x51, 0x63, 0x6a, 0x65, 0x68, 0x51, 0x6a, 0x4c}, {0x00, 0x63, 0x65, 0x67, 0x51, 0x68, 0x6a, 0x4e, 0x01}, {0x65, 0x6a, 0x4c}, {0x00, 0x63, 0x65, 0x65, 0x68, 0x68, 0x51},
+		{0x00, 0x63, 0x65, 0x68, 0x68, 0x51}, {0x00, 0x64, 0x66, 0x68, 0x6a}, {0x51, 0x64, 0x66, 0x68, 0x51, 0x6a, 0x05},
+	} {
+		for _, fl := range []uint32{FGenesis, 0, FGenesis | FMinimalData} {
+			emit((&Program{Unlock: []byte{0x51}, Lock: append([]byte{}, lock...), Flags: fl, Kind: "script-boundary"}).Fix())
+			emit((&Program{Unlock: append([]byte{}, lock...), Lock: []byte{0x51}, Flags: fl, Kind: "script-boundary"}).Fix())
+		}
+	}
+	// a P2SH-shaped output after Genesis is a plain hash comparison: no push-only rule, no redeem script
+	for _, redeem := range [][]byte{{0x51}, {0x00}, {0x51, 0x51, 0x87}} {
+		lock := append(append([]byte{0xa9, 0x14}, Hash160(redeem)...), 0x87)
+		for _, un := range [][]byte{Push(redeem), append([]byte{0x61}, Push(redeem)...), append([]byte{0x51, 0x75}, Push(redeem)...), append(Push(redeem), 0x61)} {
+			for _, fl := range []uint32{FBip16 | FGenesis, FBip16, FGenesis, FBip16 | FGenesis | FCleanStack, FBip16 | FCleanStack, FBip16 | FGenesis | FSigPushOnly} {
+				emit((&Program{Unlock: append([]byte{}, un...), Lock: append([]byte{}, lock...), Flags: fl, Kind: "script-boundary"}).Fix())
+			}
+		}
+	}
 	for _, f := range firsts {
 		for _, e := range ends {
 			for _, sec := range seconds {
